@@ -152,6 +152,55 @@ def run(replay=None):
         p, detail, m = grid_bad[0]
         ck.violation("correspondence", f"uniform-grid dual contouring: triangle / vertex counts differ from Render/DCGrid.v ({len(grid_bad)} cases)",
                      {"program": p.text(), "impl": detail, "model": m, "theorem_or_stage": "correspondence:dcgrid"}, no_input=True)
+    # ---- uniform-grid simplex meshing: the implementation's mesh against Render/SimplexGrid.v ----
+    # (the tet complex whose closedness is C03_simplex_uniform_grid_complex_closed): the model is run on the
+    # implementation's own subspace-vertex signs and must emit the same number of triangles
+    ok_s, log_s = common.build_driver(**common.DRIVERS["sgdriver"])
+    sprogs = []
+    for k in range(6 if quick else 60):
+        p = meshgen.closed_solid(rng, f"x{k}", rotate=rng.random() < 0.5, sharp=rng.random() < 0.3)
+        p.q = p.ncmd + 1
+        p.emit(f"sxgrid {p.root} 3 {box} {rng.choice([1, 4, 8])}")
+        sprogs.append(p)
+    sout, _ = common.run_cases_sharded(exe_h, [p.text() for p in sprogs], shards=8, timeout=900, single_timeout=300)
+    SG = parse_out(sout)
+    scases, sexp = [], []
+    stats["sxgrid_cases"] = 0; stats["sxgrid_equal"] = 0; stats["sxgrid_skipped_boundary"] = 0
+    for p in sprogs:
+        l = [x for x in SG.get((p.cid, p.q), []) if x.startswith("SG ")]
+        if not l:
+            continue
+        head, pts = l[0].split(" inside=")
+        f = dict(x.split("=", 1) for x in head.split()[1:])
+        n = int(f["n"])
+        P = [tuple(int(c) for c in t.split(",")) for t in pts.split()]
+        if f["closed"] != "1":
+            ck.violation("unbalanced:simplex", "the simplex mesher on a uniform grid without collapsing is not closed / edge-manifold",
+                         {"program": p.text(), "detail": head})
+        # the model covers lattice edges whose four cells lie in the box: comparable when the outermost cell
+        # layer is empty (the theorem's hypothesis clear_boundary) and every ambiguous leaf is at the finest level
+        if not P or int(f["uneven"]) or any(c <= 1 or c >= 2 * n - 1 for q in P for c in q):
+            stats["sxgrid_skipped_boundary"] += 1
+            continue
+        scases.append(f"case {p.cid}\nsxgrid {n}{pts.rstrip()}\nend\n")
+        sexp.append((p, int(f["tris"]), head))
+    stats["sxgrid_cases"] = len(scases)
+    if ok_s and scases:
+        mout, _ = common.run_cases_sharded(os.path.join(common.BUILD, "ocaml", "sgdriver"), scases, shards=16, timeout=1800, single_timeout=600)
+        SM = parse_out(mout)
+        sbad = []
+        for p, tris, head in sexp:
+            m = (SM.get((p.cid, 1)) or [""])[0]
+            if m == f"SM tris={tris}":
+                stats["sxgrid_equal"] += 1
+            else:
+                sbad.append((p, head, m))
+        if sbad:
+            p, head, m = sbad[0]
+            ck.violation("correspondence", f"uniform-grid simplex meshing: triangle count differs from Render/SimplexGrid.v ({len(sbad)} cases)",
+                         {"program": p.text(), "impl": head, "model": m, "theorem_or_stage": "correspondence:sxgrid"}, no_input=True)
+    if not ok_s:
+        ck.violation("driver", "extracted simplex-grid model does not build", {"log": log_s[-3000:]}, no_input=True)
     if not ok_g:
         ck.violation("driver", "extracted grid model does not build", {"log": log_g[-3000:]}, no_input=True)
     if "FAILED" in str(rep.get("TetTable_gen.v", "")):
@@ -162,7 +211,7 @@ def run(replay=None):
                      "log": proof["log"][-3000:]}, no_input=True)
     ck.coverage.update(stats)
     ck.coverage["evaluations"] = stats["renders"] + stats.get("grid_cases", 0)
-    ck.coverage["traces_validated_against_impl"] = stats.get("grid_equal", 0)
+    ck.coverage["traces_validated_against_impl"] = stats.get("grid_equal", 0) + stats.get("sxgrid_equal", 0)
     ck.coverage["translators"] = rep
     ck.coverage["samples"] = samples
     ck.coverage["rule"] = "closed CSG solids (60% of primitives rotated) x 3 algorithms x workers {1,2,3,4,8,16} x min_feature x max_err {1e-8, 1e-3, -1 = no merging}"
